@@ -722,7 +722,7 @@ def r8(prog, run):
                     if writes_error(c) and 'E' not in out:
                         out = out + ('E',)
                     if replaces_listener(c) and not any(isinstance(x, tuple) for x in out):
-                        out = out + (('L', nid),)
+                        out = out + (('L', nid, g.id),)
                 return out if out != st else None
             # the failure arm: the continuation under "the outcome is not success", or - when the outcome is dispatched with visit(overloaded{...}) -
             # every visitor that does not take the success alternative
@@ -739,12 +739,13 @@ def r8(prog, run):
             for st, wit in exits.items():
                 ls = [x for x in st if isinstance(x, tuple)]
                 if ls:
-                    bad = ('installs a new stream listener (%s)' % lam.fmt(ls[0][1], inline=False)[:60], wit, ls[0][1])
+                    where = prog.fns.get(ls[0][2], lam)
+                    bad = ('installs a new stream listener (%s)' % where.fmt(ls[0][1], inline=False)[:60], wit, ls[0][1], where)
                     break
                 if 'E' not in st:
                     bad = ('returns without reporting the error', wit, None)
             if bad:
-                run.violation(rid, '%s#%s#failure-path' % (f.outer_name(), v.split('::')[-1]), lam.loc(bad[2]) if bad[2] is not None else lam.loc(),
+                run.violation(rid, '%s#%s#failure-path' % (f.outer_name(), v.split('::')[-1]), (bad[3] if len(bad) > 3 else lam).loc(bad[2]) if bad[2] is not None else lam.loc(),
                               'the continuation of %s::authenticate in %s %s on a path where the outcome is not success: the mismatch / failure is not what the caller gets to see'
                               % (v.split('::')[-1], f.display()[:50], bad[0]))
             else:
